@@ -14,7 +14,8 @@
    The theorems are for the straight-line fragment (`map Simple sl`), any size, any pool, any
    pre-assignment; `zr` = RISC-V zero rule on/off (off = x86). *)
 From Coq Require Import ZArith List Bool.
-From XV Require Import C19.Model C19.ProofsSpec C19.ProofsFunc C19.ProofsRefute C19.Enc.
+From XV Require Import C19.Model C19.ProofsSpec C19.ProofsAlloc C19.ProofsOp C19.ProofsStep C19.ProofsMain
+                       C19.ProofsFunc C19.ProofsRefute C19.ProofsLoop C19.Enc.
 Import ListNotations.
 Local Open Scope Z_scope.
 
@@ -202,3 +203,78 @@ Example C19_for_example :
   | Err _ => False
   end.
 Proof. vm_compute. reflexivity. Qed.
+
+(* ------------------------------------------------------------------------------------------------ *)
+(* riscv_scf.for: PARTIAL results.  The end-to-end no-interference theorem for functions with a loop is
+   not finished; proved are the three pieces below, each for arbitrary programs, stated with their exact
+   hypotheses.  `Inv c t0 FR L E M a` (C19/ProofsAlloc.v) is the allocator invariant: the registers of
+   the values in L are not available, two of them share a register only if the typing t0 pre-assigns it,
+   or it is zero, or the pair is exempt by E; values outside M still have their t0 type.
+
+   (1) allocating the loop-carried groups (block_arg, iter operand, yield operand, result) preserves the
+       invariant, PROVIDED the groups do not overlap (NoDup (concat gs)), the block argument, the iter
+       operand and the yield operand of every group are so far untouched and unallocated in the input
+       (the iter operand dies at the loop: it is used by nothing processed before; the yield operand is a
+       body value, not the induction variable and not an outer value), and the result is unallocated
+       in the input.  These hypotheses exclude the shape of the recorded finding C19-kf-3 (yield of the
+       induction variable), see C19_loop_yield_iv_refuted below. *)
+Theorem C19_loop_groups_partial : forall c t0 (FR : value -> Z -> Prop) gs0, NoDup (concat gs0) ->
+  forall (L M : value -> Prop) gs pre acc a a',
+    gs0 = pre ++ gs ->
+    Inv c t0 FR (setof L acc) (Eg gs0) (setof M acc) a ->
+    (forall g, In g gs -> exists b it y r_, g = [b; it; y; r_] /\ NoDup g
+        /\ ~ M b /\ ~ M it /\ ~ M y /\ t0 b = None /\ t0 it = None /\ t0 y = None /\ t0 r_ = None
+        /\ (L r_ \/ ~ M r_) /\ ~ In r_ (zconsts c)
+        /\ (forall u w r, In u g -> In w g -> FR u r -> FR w r)
+        /\ (forall u, In u g -> ~ In u acc)) ->
+    NoDup (concat gs) ->
+    fold_res allocate_values_same_reg gs a = Ok a' ->
+    Inv c t0 FR (setof L (acc ++ concat gs)) (Eg gs0) (setof M (acc ++ concat gs)) a' /\ mono a a'
+    /\ (forall g, In g gs -> exists R, forall u, In u g -> ty a' u = Some R)
+    /\ (forall w, ~ In w (concat gs) -> ty a' w = ty a w).
+Proof. intros c t0 FR gs0 Hnd. exact (groups_phase c t0 FR gs0 Hnd). Qed.
+Print Assumptions C19_loop_groups_partial.
+
+(* (2) reserving registers that are not available (the loop-carried ones) preserves the invariant *)
+Theorem C19_loop_reserve_partial : forall c t0 (FR : value -> Z -> Prop) (L : value -> Prop) E (M : value -> Prop) a regs,
+  Inv c t0 FR L E M a ->
+  (forall r, In r regs -> ~ In r (available (stk a)) /\ (r < 0 -> - r - 1 < next_inf (stk a))) ->
+  Inv c t0 FR L E M (set_stk a (fold_left (fun s r => reserve_register r s) regs (stk a))).
+Proof. exact reserve_inv. Qed.
+Print Assumptions C19_loop_reserve_partial.
+
+(* (3) the walk over a segment q of a block l (the loop body inside the virtual straight-line block
+       pre ++ H :: body ++ Y :: post, where the pseudo-operations H / Y stand for the loop header and the
+       back edge and make live-ins, induction variable and yield operands live throughout the body),
+       started from ANY state that satisfies the invariant at the point below the segment -- in
+       particular one with reserved registers -- re-establishes it at every point of the segment;
+       t0 may be the typing in which the members of the loop-carried groups count as pre-assigned. *)
+Theorem C19_loop_body_partial : forall c t0 (FR : value -> Z -> Prop),
+  (forall v r, t0 v = Some r -> FR v r) ->
+  forall l, wf_prog l -> io_ok l ->
+  (forall o' x y, In o' l -> In (x, y) (s_io o') -> ~ In y (zconsts c)) ->
+  (forall o' x y, In o' l -> In (x, y) (s_io o') -> forall r, (FR x r -> FR y r) /\ (FR y r -> FR x r)) ->
+  forall q s0 p a0 a, l = p ++ q ++ s0 ->
+    Inv c t0 FR (live s0) Enone (ment s0) a0 -> (forall v, live s0 v -> exists r, ty a0 v = Some r) ->
+    allocate_sops c q a0 = Ok a ->
+    Inv c t0 FR (live (q ++ s0)) Enone (ment (q ++ s0)) a
+    /\ (forall v, live (q ++ s0) v -> exists r, ty a v = Some r) /\ mono a0 a.
+Proof. intros c t0 FR Hpre l Hwf Hio Hnz Htie. exact (walk_from c t0 FR Hpre l Hwf Hio Hnz Htie). Qed.
+Print Assumptions C19_loop_body_partial.
+
+(* Recorded finding C19-kf-3 (found through the C22 pipeline check, C22-kf-7): a riscv_scf.for that
+   yields its own induction variable -- `scf.for %i ... iter_args(%acc = %init) { yield %i }`, valid IR
+   produced by xDSL's own lowering -- is allocated without error and the induction variable (value 5),
+   the iter operand (3), the carried block argument (6) and the result (4) all get t0: the loop header's
+   `mv iv <- lb` overwrites the carried value, the increment of iv overwrites the yielded one. *)
+Example C19_loop_yield_iv_refuted :
+  match allocate_func true [17; 16; 15; 14; 13; 12; 11; 10; 31; 30; 29; 28; 7; 6; 5] false
+    (mkFunc (repeat None 7)
+       [S_ [] [0%nat] [] KZero true; S_ [] [1%nat] [] KOther true; S_ [] [2%nat] [] KOther true;
+        S_ [2%nat] [3%nat] [] KMv true;
+        F_ 0%nat 1%nat None [3%nat] [4%nat] [5%nat; 6%nat] [] [5%nat];
+        S_ [4%nat] [] [] KOther true]) with
+  | Ok af => ty af 3%nat = Some 5 /\ ty af 5%nat = Some 5 /\ ty af 4%nat = Some 5
+  | Err _ => False
+  end.
+Proof. vm_compute. repeat split; reflexivity. Qed.
